@@ -4,6 +4,7 @@ package NoKV
 
 import (
 	sym "github.com/feichai0017/NoKV/internal/verifsym"
+	"github.com/feichai0017/NoKV/kv"
 )
 
 // Concurrent committers and readers on the real oracle and its watermarks: when
@@ -54,5 +55,61 @@ func VerifC05NoLateVisibility() {
 			}
 		}
 	}
+	sym.Reached("end")
+}
+
+// ---- end to end on the real transaction layer and commit pipeline ----
+//
+// Committer A (key a) runs concurrently with a second thread that commits key b
+// and then reads both keys in one read-only transaction, twice. Whatever the
+// interleaving: the reader sees exactly the commits at or below its read
+// timestamp, and sees the same thing both times (a commit at or below the read
+// timestamp never becomes visible later).
+func VerifC05SnapshotComplete() {
+	sym.FreeRun() // native replay: real goroutines + stress iterations (see C34)
+	db := VerifOpenPipelineDB(2, true)
+	keys := []string{"a", "b"}
+	payload := sym.U8("payload")
+	commit := func(k string) {
+		err := db.Update(func(txn *Txn) error { return txn.SetEntry(kv.NewEntry([]byte(k), []byte{payload})) })
+		sym.Assert(err == nil, "disjoint-blind-writes-commit")
+	}
+	look := func(txn *Txn) (seen [2]bool) {
+		for i, k := range keys {
+			it, err := txn.Get([]byte(k))
+			seen[i] = err == nil && it != nil
+		}
+		return
+	}
+	running := 2
+	sym.Go(func() {
+		commit("a")
+		sym.Ghost(func() { running-- })
+	})
+	var rts uint64
+	var first, second [2]bool
+	sym.Go(func() {
+		commit("b")
+		txn := db.NewTransaction(false)
+		rts = txn.readTs
+		first = look(txn)
+		sym.Yield()
+		second = look(txn)
+		txn.Discard()
+		sym.Ghost(func() { running-- })
+	})
+	sym.WaitUntil(func() bool { return running == 0 })
+	// what the snapshot at rts contains, now that everything has been applied
+	final := db.NewTransaction(false)
+	sym.Assert(final.readTs >= rts, "read-timestamps-do-not-go-back")
+	final.readTs = rts
+	want := look(final)
+	sym.Assert(want[1], "own-thread-commit-is-visible")
+	for i := range keys {
+		sym.Assert(first[i] == want[i], "reads-see-every-commit-at-or-below-read-ts")
+		sym.Assert(second[i] == first[i], "snapshot-stable-within-transaction")
+	}
+	VerifStopPipeline(db)
+	VerifRemovePipelineDir(db)
 	sym.Reached("end")
 }
